@@ -26,7 +26,10 @@ def gen_cases(tier, seed):
     for i in range(n):
         s = env.seed_for(seed, ID, tier, i)
         r = random.Random(env.seed_for(s, "descriptor"))  # independent of the stream run_case derives from the same seed
-        out.append({"seed": s, "n": r.randint(2, 22 if tier == "quick" else 55), "steps": r.randint(3, 14 if tier == "quick" else 25)})
+        out.append({"seed": s, "n": r.randint(2, 22 if tier == "quick" else 55), "steps": r.randint(3, 14 if tier == "quick" else 25),
+                    # one history in five runs in a zone with daylight saving, its clock mapped onto instants around a transition, with
+                    # mixed naive / aware representations ("modified times ... compared as instants")
+                    "tz": r.choice(["America/New_York", "Europe/London", "Australia/Lord_Howe", "America/St_Johns", "Europe/Berlin"]) if r.random() < 0.2 else None})
     return out
 
 
